@@ -70,10 +70,12 @@ def main(tier):
             routes = drv.ask({"op": "dis.route", "be": I.be, "maxlen": I.maxlen, "specs": req["specs"], "tree": req["tree"],
                               "inputs": [list(bs) for _, bs in inputs]})
             nfail = 0
+            isa.reset(d)
             for (kind, bs), cand in zip(inputs, routes):
-                isa.reset(d)
+                # NOT reset between inputs: the whole input list is one history of calls on the
+                # disassembler object, as a sweep does; every call must still equal the scan
                 with isa.AttemptTrace() as tr:
-                    real = isa.real_decode(d, bs)
+                    real = isa.real_decode(d, bs, fresh=False)
                 real_fp = (real[0], isa.fingerprint(real[1]) if real[0] == "ok" else real[1])
                 ref = isa.ref_scan(d, ref_order, bs, e)
                 ref_fp = (ref[0], isa.fingerprint(ref[1]) if ref[0] == "ok" else ref[1])
